@@ -315,6 +315,17 @@ def family_programs(rnd, n):
     for i, src in enumerate(EXITS):
         code = 0 if "exit(0)" in src else 3
         out.append((f"exit:{i}", 'print("start");\n' + src + '\nprint("not here");', {"stdout": ["start"], "code": code}))
+    # ---- module names used before their definition has run (they are declared for the whole module)
+    UB = [('fn f() { return x; }\ntry { print(f()); } catch e: RuntimeError { print("caught"); }\nlet x = 1;\nprint(f());', ["caught", "1", "after"]),
+          ('fn f() { return K(); }\ntry { f(); print("made"); } catch e: RuntimeError { print("caught"); }\nclass K { }\nf();', ["caught", "after"]),
+          ('fn f() { return g(); }\ntry { print(f()); } catch e: RuntimeError { print("caught"); }\nfn g() { return 2; }\nprint(f());', None),
+          ('fn s() { x = 5; }\ntry { s(); print("set"); } catch e: RuntimeError { print("caught"); }\nlet x = 1;', None),
+          ('class A { m() { return later; } }\ntry { print(A().m()); } catch e: RuntimeError { print("caught"); }\nlet later = 3;\nprint(A().m());', ["caught", "3", "after"]),
+          ('let f = || later;\ntry { print(f()); } catch e: RuntimeError { print("caught"); }\nlet later = 3;\nprint(f());', ["caught", "3", "after"]),
+          ('fn f() { return [later].iter().map(|q| q).list(); }\ntry { print(f()); } catch e: RuntimeError { print("caught"); }\nlet later = 3;\nprint(f());', ["caught", "[3]", "after"]),
+          ('fn w(ch) { ch <- later; }\nlet ch = chan(1);\nlaunch w(ch);\nlet later = 4;\nprint(<- ch);', ["4", "after"])]
+    for i, (src, exp) in enumerate(UB):
+        out.append((f"usebefore:{i}", src + '\nprint("after");', {"stdout": exp, "status": "ok"} if exp else {"contract": True, "last": "after", "status_in": ["ok"]}))
     # ---- launch of every kind of callable: the new fiber must see the receiver / the new instance
     LPRE = ('class M { init() { self.v = 7; } run(ch) { ch <- self.v; } static make(ch) { ch <- 8; } }\n'
             'class I { init(ch) { self.v = 9; ch <- self.v; } }\nfn plain(ch) { ch <- 1; }\n'
